@@ -78,16 +78,25 @@ class Spec:
             return [f'HARNESS-EXC {type(e).__name__}: {e}']
 
     def fails(self, case):
-        """Oracle verdict on the real code for one case (None = holds)."""
-        out = self.safe_impl(case)
+        """Oracle verdict on the real code for one case (None = holds); a case that does not return within the
+        CPU budget fails as a hang."""
+        limit = _case_limit(self)
         try:
-            return self.oracle(case, out)
-        except Exception as e:
-            return f'oracle raised {type(e).__name__}: {e}'
+            with watchdog(limit):
+                out = self.safe_impl(case)
+                try:
+                    return self.oracle(case, out)
+                except Exception as e:
+                    return f'oracle raised {type(e).__name__}: {e}'
+        except CaseTimeout:
+            _note_timeout()
+            return f'the library did not return within {limit} CPU-seconds on this case (hang)'
 
     def shrink(self, case, budget_s=10):
         t0 = time.time()
         cur = case
+        if _TIMEOUTS is not None and _TIMEOUTS.value:
+            return cur      # the library hangs on some inputs: every candidate could cost a full watchdog period
         progress = True
         while progress and time.time() - t0 < budget_s:
             progress = False
@@ -102,6 +111,24 @@ class Spec:
 
 
 _SPEC = None
+_TIMEOUTS = None      # multiprocessing.Value shared with the pool workers: cases that hit the watchdog so far
+
+
+def _case_limit(spec):
+    """CPU seconds one case may burn. After two cases have hit the full limit the library is known to hang (that is
+    already a violation), so the remaining cases get a short leash and the check ends in minutes, not hours."""
+    base = getattr(spec, 'CASE_TIMEOUT', 120)
+    if _TIMEOUTS is not None and _TIMEOUTS.value >= 8:
+        return 1
+    if _TIMEOUTS is not None and _TIMEOUTS.value >= 2:
+        return max(5, base / 20)
+    return base
+
+
+def _note_timeout():
+    if _TIMEOUTS is not None:
+        with _TIMEOUTS.get_lock():
+            _TIMEOUTS.value += 1
 
 
 class CaseTimeout(BaseException):
@@ -122,7 +149,7 @@ class watchdog:
     def __enter__(self):
         import signal
         self.old = signal.signal(signal.SIGPROF, _alarm)
-        signal.setitimer(signal.ITIMER_PROF, self.seconds)
+        signal.setitimer(signal.ITIMER_PROF, self.seconds, 5)
 
     def __exit__(self, *a):
         import signal
@@ -134,9 +161,13 @@ class watchdog:
 def _eval_one(c):
     """(impl output, oracle verdict) under a watchdog: a library call that never returns is a failing input"""
     import signal
-    limit = getattr(_SPEC, 'CASE_TIMEOUT', 120)     # CPU seconds of this process (ITIMER_PROF): immune to machine load
+    limit = _case_limit(_SPEC)     # CPU seconds of this process (ITIMER_PROF): immune to machine load
     old = signal.signal(signal.SIGPROF, _alarm)
-    signal.setitimer(signal.ITIMER_PROF, limit)
+    signal.setitimer(signal.ITIMER_PROF, limit, 5)      # then every 5 CPU-s, in case a bare `except:` swallowed it
+    # wall-clock backstop for waits that burn no CPU (a helper process that never answers): far above anything a
+    # loaded machine can cause for one case
+    old_alrm = signal.signal(signal.SIGALRM, _alarm)
+    signal.setitimer(signal.ITIMER_REAL, getattr(_SPEC, 'CASE_WALL_TIMEOUT', 900))
     try:
         iout = _SPEC.safe_impl(c)
         try:
@@ -147,22 +178,38 @@ def _eval_one(c):
             f = f'oracle raised {type(e).__name__}: {e}'
         return iout, f
     except CaseTimeout:
+        _note_timeout()
         return ['HARNESS-TIMEOUT'], f'the library did not return within {limit} CPU-seconds on this case (hang)'
     finally:
         signal.setitimer(signal.ITIMER_PROF, 0)
         signal.signal(signal.SIGPROF, old)
+        signal.setitimer(signal.ITIMER_REAL, 0)
+        signal.signal(signal.SIGALRM, old_alrm)
+
+
+def _die_with_parent():
+    """worker initializer: ask the kernel to kill this worker when the parent dies (no orphans burning CPU when a
+    check is killed from outside)"""
+    try:
+        import ctypes
+        import signal
+        ctypes.CDLL('libc.so.6', use_errno=True).prctl(1, signal.SIGKILL)      # PR_SET_PDEATHSIG
+    except Exception:
+        pass
 
 
 def _evaluate_all(spec, cases):
     """(impl output, oracle verdict) per case; in worker processes when spec.PARALLEL."""
-    global _SPEC
+    global _SPEC, _TIMEOUTS
     _SPEC = spec
+    import multiprocessing as mp
+    _TIMEOUTS = mp.get_context('fork').Value('i', 0)
     n = getattr(spec, 'PARALLEL', 0)
     if not n or len(cases) < 64:
         return [_eval_one(c) for c in cases]
     import multiprocessing as mp
     ctx = mp.get_context('fork')
-    with ctx.Pool(min(n, os.cpu_count() or 1)) as pool:
+    with ctx.Pool(min(n, os.cpu_count() or 1), initializer=_die_with_parent) as pool:
         return pool.map(_eval_one, cases, chunksize=max(1, len(cases) // (n * 8)))
 
 
@@ -323,7 +370,8 @@ def run_check(spec, tier, seed):
         queue = []
         for s in seeds:
             queue.extend(spec.neighbours(s, srng))
-        gen = iter(spec.cases(srng, 'thorough'))
+        # (when generating cases itself broke, generating them again for the search would break the same way)
+        gen = iter(()) if any(b[0] == 'case-generation' for b in breaks) else iter(spec.cases(srng, 'thorough'))
         while time.time() - ts < budget and found is None:
             if queue:
                 c = queue.pop(0)
